@@ -71,7 +71,25 @@ def cases(draw, allow_bad=True):
                                 max_size=6))
         sims.append({"changes": ch, "bad": bad, "date_kind": draw(st.sampled_from(DATE_KINDS)),
                      "k": draw(st.integers(1, 30)), "toggles": [list(t) for t in toggles]})
-    return {"spec": spec, "id_seed": draw(st.integers(0, 2 ** 20)), "sims": sims}
+    # afterwards the baseline must also *behave* as before: ordinary edits give what a fresh build gives
+    probe = []
+    if draw(st.floats(0, 1)) < 0.6:
+        lists = sorted({(e["obj"], e["attr"]) for s_ in sims for e in s_["changes"]
+                        if e["op"] == "list" and e["attr"] in ("jobs", "uj_steps") and spec["objs"][e["obj"]][e["attr"]]})
+        if lists and draw(st.booleans()):
+            # an in-place operation on a list that a simulation replaced and put back
+            n, a = draw(st.sampled_from(lists))
+            x = draw(st.sampled_from(spec["objs"][n][a]))
+            m = draw(st.sampled_from(["append", "iadd", "insert", "pop"]))
+            args = {"append": [x], "iadd": [[x]], "insert": [0, x], "pop": []}[m]
+            if m == "pop" and len(spec["objs"][n][a]) < 2:
+                m, args = "append", [x]
+            probe.append(dict(op="listop", obj=n, attr=a, method=m, args=args))
+        cur = spec
+        for e in probe:
+            cur = E.apply_spec(cur, e)
+        probe += draw(G.histories(cur, min_steps=0 if probe else 1, max_steps=2, undo_prob=0.0, refusals=0.0))
+    return {"spec": spec, "id_seed": draw(st.integers(0, 2 ** 20)), "sims": sims, "probe": probe}
 
 
 def period(objs, spec):
@@ -233,9 +251,42 @@ def check(case, ctx):
                 ok = False
         if not ok:
             break
+    else:
+        probe_baseline(case, ctx, objs, labels)
     ctx.case(case, nontrivial, labels,
              sample={"sims": [{"changes": [E.describe(e) for e in s["changes"]], "bad": s["bad"],
                                "date": s["date_kind"], "toggles": s["toggles"]} for s in case["sims"]]})
+
+
+def probe_baseline(case, ctx, objs, labels):
+    """After the what-ifs: ordinary edits of the baseline must give what a fresh build of the same inputs gives."""
+    cur = case["spec"]
+    for i, e in enumerate(case.get("probe") or []):
+        try:
+            after = E.apply_spec(cur, e)
+        except E.Inapplicable:
+            return
+        fresh, exc = F.build_case({"spec": after, "id_seed": case["id_seed"] + 50 + i})
+        sig = {"kind": "baseline_behaves_differently", "edit": E.kind(cur, e)}
+        try:
+            with M.watchdog():
+                E.apply_live(objs, e, cur)
+        except Exception as ex:
+            if fresh is not None:
+                ctx.violation("baseline_behaves_differently", case,
+                              "after the simulations, %s raised %s: %s although a system built with these inputs is "
+                              "valid" % (E.describe(e), type(ex).__name__, str(ex)[:200]), dict(sig, how="raises"))
+            return
+        if fresh is None:
+            return      # accepted although a fresh build refuses: C01's subject, not this check's
+        labels.append("probe_edit")
+        d = snap.compare(snap.snapshot(S.reachable(objs)), snap.snapshot(S.reachable(fresh)))
+        if d:
+            ctx.violation("baseline_behaves_differently", case,
+                          "after the simulations, %s leaves %d calculated value(s) different from a fresh build; "
+                          "first %s %s" % (E.describe(e), len(d), d[0][0], d[0][1]), dict(sig, how="stale"))
+            return
+        cur = after
 
 
 def replay(case, ctx):
